@@ -530,15 +530,20 @@ func c16Faults(c *Ctx) {
 func c16LoadReplay(path string) []c16Case {
 	var doc struct {
 		Replay struct {
-			Case *c16Case `json:"case"`
+			Case   *c16Case `json:"case"`
+			BufHex *string  `json:"buf_hex"` // scanner-correspondence replays (c16_scan.go)
 		} `json:"replay"`
 	}
 	b, err := os.ReadFile(path)
 	if err != nil {
 		panic(err)
 	}
-	if err := jsonUnmarshal(b, &doc); err != nil || doc.Replay.Case == nil {
+	if err := jsonUnmarshal(b, &doc); err != nil || (doc.Replay.Case == nil && doc.Replay.BufHex == nil) {
 		panic("replay file has no case")
+	}
+	if doc.Replay.Case == nil {
+		// the buffer is also given to the whole compiler; c16Scanner re-runs the correspondence on it
+		return []c16Case{{Src: c16ReplayBuf(path), Kind: "scanner-replay"}}
 	}
 	return []c16Case{*doc.Replay.Case}
 }
